@@ -936,4 +936,90 @@ theorem blocking_loop_sentinels_sound {ρ : Type} (t : Trace ρ) (f : Flags) (a 
   · next r hr => exact loopF_returned h hf _ _ _ _ h1 h2 inv0 hr
   · next e he => exact loopF_timeout h hf _ _ _ _ h1 h2 (by omega) inv0 he
 
+/-! ### round 5: the loop from its entry; scripted runs tied to the real `Server.blockingQuery` -/
+
+open CV.BQ in
+/-- NON-BLOCKING BRANCH of `blockingquery.Query`: with `MinQueryIndex = 0` the query function runs exactly once,
+    whatever index it stores and whatever sentinel it raises. -/
+theorem query_min_zero_single_evaluation {ρ : Type} (t : Trace ρ) (f : Flags) (start : Nat) :
+    query t f 0 start = .returned start := by
+  simp [query]
+
+open CV.BQ in
+/-- … and with `MinQueryIndex > 0` it is the sentinel loop the theorems above are about. -/
+theorem query_min_pos_is_loop {ρ : Type} (t : Trace ρ) (f : Flags) (m start : Nat) (hm : 0 < m) :
+    query t f m start = runF t f m start := by
+  have : m ≠ 0 := by omega
+  simp [query, this]
+
+open CV.BQ in
+/-- The sentinel handling is conservative: a query function that never raises `ErrNotFound` / `ErrNotChanged`
+    runs through exactly the plain loop (`blocking_loop_sound` applies to it verbatim). -/
+theorem loopF_without_sentinels_is_loop {ρ : Type} (t : Trace ρ) (m : Nat) :
+    ∀ (fuel : Nat) (st : LoopSt) (c : Nat), st.min = m → loopF t noFlags fuel st c = loop t m fuel c := by
+  intro fuel
+  induction fuel with
+  | zero => intro st c _; rfl
+  | succ n ih =>
+    intro st c hst
+    have hmin : (evalStep t noFlags st c).min = m := by
+      unfold evalStep noFlags
+      cases st.prev <;> simp [hst]
+    simp only [loopF, loop, hmin]
+    split
+    · rfl
+    · split
+      · rfl
+      · exact ih _ _ hmin
+
+open CV.BQ in
+theorem runF_without_sentinels_is_run {ρ : Type} (t : Trace ρ) (m start : Nat) :
+    runF t noFlags m start = run t m start :=
+  loopF_without_sentinels_is_loop t m _ _ _ rfl
+
+open CV.BQ in
+/-- `ErrNotFound` KEEPS BLOCKING: once the query function has answered "not found", further "not found"
+    answers never end the request, whatever the index does (each one raises the blocked-on index to the index
+    just reported): the request runs into its time limit. This is the reason the sentinel exists — writes to
+    other rows of the table must not wake a client that waits for an entry to appear. -/
+theorem not_found_keeps_blocking {ρ : Type} (t : Trace ρ) (f : Flags) (hf : ∀ k, f.notFound k = true) :
+    ∀ (fuel : Nat) (st : LoopSt) (c : Nat), st.sawNotFound = true → ∃ e, loopF t f fuel st c = .timeout e := by
+  intro fuel
+  induction fuel with
+  | zero => intro st c _; exact ⟨c, rfl⟩
+  | succ n ih =>
+    intro st c hs
+    have hstep : evalStep t f st c = { min := t.idx c, sawNotFound := true, prev := some c } := by
+      simp [evalStep, hf c, hs]
+    simp only [loopF, hstep, Nat.lt_irrefl, if_false]
+    split
+    · exact ⟨c, rfl⟩
+    · exact ih _ _ rfl
+
+open CV.BQ in
+/-- … from the entry of the loop: if the entry is absent in every state and the first evaluation does not already
+    carry a newer index than the one asked for, the request ends by its time limit, never by a spurious return. -/
+theorem absent_entry_blocks_until_timeout {ρ : Type} (t : Trace ρ) (f : Flags) (hf : ∀ k, f.notFound k = true)
+    (m start : Nat) (h0 : t.idx start ≤ m) (hfuel : 0 < t.last + 1 - start) :
+    ∃ e, runF t f m start = .timeout e := by
+  unfold runF
+  obtain ⟨n, hn⟩ : ∃ n, t.last + 1 - start = n + 1 := ⟨t.last + 1 - start - 1, by omega⟩
+  rw [hn]
+  have hstep : evalStep t f ⟨m, false, none⟩ start = { min := m, sawNotFound := true, prev := some start } := by
+    simp [evalStep, hf start]
+  have hng : ¬ (t.idx start > m) := by omega
+  simp only [loopF, hstep, hng, if_false]
+  split
+  · exact ⟨start, rfl⟩
+  · exact not_found_keeps_blocking t f hf _ _ _ rfl
+
+open CV.BQ in
+/-- non-vacuity / regression values of the scripted model (the same scripts run against the real loop on every
+    check): `ErrNotChanged` on a second evaluation raises the blocked-on index (4 evaluations, then the limit);
+    two "not found" answers swallow an index that moved; `MinQueryIndex = 0` evaluates once. -/
+example : scriptRun 1 [⟨1, .none, true⟩, ⟨1, .none, true⟩, ⟨2, .notChanged, true⟩, ⟨2, .notChanged, false⟩] = some (4, 2) ∧
+    scriptRun 2 [⟨2, .notFound, true⟩, ⟨3, .notFound, true⟩, ⟨3, .none, false⟩] = some (3, 3) ∧
+    scriptRun 2 [⟨2, .notFound, true⟩, ⟨3, .none, true⟩, ⟨9, .none, false⟩] = some (2, 3) ∧
+    scriptRun 0 [⟨7, .notFound, false⟩] = some (1, 7) := by decide
+
 end CV.Store
